@@ -52,6 +52,7 @@ enum Kind : int {
   // process / file layer (c10)
   K_GETPID, K_TIME, K_OPEN, K_CLOSE, K_FLOCK, K_FLOCKED, K_FUNLOCK,
   K_FOPEN, K_FCLOSE, K_WRITE, K_READ,
+  K_ALLOC,  // a sampled C++ allocation (operator new) used as pre-emption point inside otherwise opaque code
   // harness points: K_USER + n
   K_USER = 64
 };
@@ -144,6 +145,15 @@ void block_on(int kind, long obj);           // current task blocks until wake(k
 void wake(int kind, long obj);               // all waiters on (kind,obj) become runnable
 void join_task(int task);                    // block until task is done/dead
 [[noreturn]] void exit_task();
+
+// Allocation points: the harness executable replaces operator new; while a run is active every `stride`-th
+// allocation of a task for which `gate` returns true becomes a decision point (stride 0 = off).  This puts
+// pre-emption points inside code that makes no intercepted call (e.g. a tool's EvalConfiguration).
+void set_alloc_points(long stride, long offset, const std::function<bool()> &gate);
+void alloc_point();   // called by the replaced operator new
+// RAII: code between construction and destruction is harness code of the current task; its allocations are never decision points
+struct Harness { Harness(); ~Harness(); int task; };
+long alloc_points_taken();
 
 // fatal harness error: message, exit code 2
 [[noreturn]] void harness_error(const char *fmt, ...);
